@@ -7,6 +7,7 @@ FnV(n) == [k |-> "fn", name |-> n]
 ObjV(n) == [k |-> "obj", name |-> n]
 TupV(s) == [k |-> "tup", items |-> s]
 Common(o) == [f |-> FnV("f"), g |-> FnV("g"), Y |-> IntV(4), N |-> IntV(-2), a0 |-> IntV(3),
+              m |-> [k |-> "map", name |-> "m1"],
               t |-> TupV(<< IntV(10), IntV(20), FracV(5, 2) >>), o |-> ObjV(o)]
 Envs == <<
   [x |-> IntV(2),      y |-> IntV(-3),     z |-> IntV(0),     b |-> BoolV(TRUE)]  @@ Common("o1"),
